@@ -356,6 +356,19 @@ def gen_stream(rng, geom, nblocks, maxblock, big=False, ringfill=False):
         out[-1].update({"blk": blk, "content": content, "profile": prof})
         total += content
         prev = content
+    # zero-length messages (the one-byte block 00): LZ4_decompress_safe_continue returns 0 and must leave the history it
+    # keeps untouched, wherever the empty block is "decoded" (same place, other buffer, after a ring wrap)
+    if geom in ("contig", "ring", "double", "extchain") and len(out) >= 2 and rng.random() < 0.5:
+        for _ in range(rng.choice([1, 1, 2])):
+            at = rng.randrange(1, len(out))
+            out.insert(at, {"hist": out[at]["hist"], "blk": bytes([rng.choice([0x00, 0x00, 0x05, 0x0f])]), "content": b"", "profile": "empty"})
+        if geom == "double":
+            # in the double-buffer geometry a block's history is the previous NON-EMPTY block (an empty one leaves the state as is)
+            last = b""
+            for b in out:
+                b["hist"] = last
+                if b["content"]:
+                    last = b["content"]
     return out
 
 def _ext(v):
@@ -496,10 +509,13 @@ def run_stream(lib, orc2, fast, geom, blocks, maxblock, rng, salt, use_fast_api=
             poke(bs, 0, fill(maxblock, salt + k))
             bufs.append((bb, bs))
         plan = []
-        for i, b in enumerate(blocks):
+        k = 0            # number of non-empty blocks so far: an empty block leaves the decoder's history where it is, so the
+        for i, b in enumerate(blocks):      # buffers alternate on the non-empty blocks only
             n = len(b["content"])
-            bb, bs = bufs[i & 1]
+            bb, bs = bufs[k & 1]
             plan.append((bb, bs, 0, rng.choice([n, maxblock, min(n + 1, maxblock)])))
+            if n:
+                k += 1
     elif geom == "extchain":
         # LZ4_setStreamDecode(external dictionary) once, then contiguous blocks: ext-dict mode, then double-dict mode
         hist = blocks[0]["hist"]
